@@ -141,11 +141,13 @@ func Sub(fs FS, dir string) (FS, error) {
 	if fs, ok := fs.(SubFS); ok {
 		return fs.Sub(dir)
 	}
-	if fs, ok := fs.(MountFS); ok {
+	if fs, ok := fs.(*subFS); ok {
+		// a Sub of a Sub is a Sub of the original FS
 		mountFS, subPath := fs.Mount(dir)
 		fs, err := Sub(mountFS, subPath)
 		return fs, stripErrPathPrefix(err, dir, subPath)
 	}
+	// any other MountFS may have more mounts below 'dir', so it must keep routing every name itself
 	return newSubFS(fs, dir)
 }
 
